@@ -18,7 +18,9 @@ THOROUGH = QUICK + ("set", "algo", "string", "sum")
 def _mine(d):
     ev = d.get("ev", {}) or {}
     k = d["kind"]
-    return (k.startswith("mem") or any(x in k for x in MEM_KINDS) or ev.get("op") == "ctor_dinit"
+    # life-protocol = a special member ran on storage without a live object (or a constructor over a live one):
+    # that is undefined behaviour too, observed by the lifetime monitor of the same traces
+    return (k.startswith("mem") or any(x in k for x in MEM_KINDS) or k == "life-protocol" or ev.get("op") == "ctor_dinit"
             or (k == "obs" and "corrupt" in str(ev.get("obs"))))
 
 
